@@ -11,11 +11,12 @@ open Qbice.Core (Prog Err Write SetRes allVals evalProg applyWorld Sat TraceOK)
 theorem Solid.fwVerified {s : St} {k : Key} {n : Node} (h : Solid s k) (hn : s.nodes k = some n)
     (hf : n.kind = .firewall) : n.lastVerified = s.epoch := by
   cases h with
-  | mk _ n' hn' hfw _ _ => rw [hn] at hn'; cases hn'; exact hfw hf
+  | mk _ n' hn' hfw _ _ _ => rw [hn] at hn'; cases hn'; exact hfw hf
 
 theorem Frame.log_nil {p : Program} {s s' : St} (hl : s'.log = s.log)
     (hn : ∀ x, s.nodes x = none → s'.nodes x = none) :
-    ∃ new, s'.log = s.log ++ new ∧ new.Nodup ∧ (∀ x, x ∈ new → Just p s x ∧ Verified s' x) ∧
+    ∃ new, s'.log = s.log ++ new ∧ new.Nodup ∧
+      (∀ x, x ∈ new → (Just p s x ∨ Forced s s' x) ∧ Verified s' x) ∧
       ∀ x, s.nodes x = none → s'.nodes x ≠ none → x ∈ new :=
   ⟨[], by simp [hl], by simp, fun _ h => (by cases h), fun x h h' => absurd (hn x h) h'⟩
 
@@ -24,7 +25,9 @@ theorem Frame.refl (p : Program) (s : St) : Frame p s s where
   inputs := rfl
   ext := rfl
   world := rfl
-  keep := fun _ n _ h => ⟨n, h, rfl, rfl, rfl, rfl, rfl⟩
+  keep := fun _ n _ h => ⟨n, h, rfl, rfl, rfl, rfl, rfl, id⟩
+  vkeep := fun _ n h _ => ⟨n, h, rfl, rfl⟩
+  pend := fun _ n' h hp => ⟨n', h, Or.inl hp⟩
   same_or_verified := fun _ => Or.inl rfl
   log := ⟨[], by simp, by simp, fun _ h => (by cases h), fun _ h h' => absurd h h'⟩
 
@@ -40,25 +43,65 @@ theorem Frame.solid {p : Program} {s s' : St} (f : Frame p s s') {x : Key} (h : 
     Solid s' x := by
   apply h.transfer
   intro y n hy hn
-  obtain ⟨n', hn', a, b, c, d, e⟩ := f.keep y n hy hn
-  refine ⟨n', hn', a, b, c, d, e, ?_⟩
-  intro hf
-  obtain ⟨n'', hn'', hv⟩ := f.verified ⟨n, hn, hy.fwVerified hn hf⟩
-  rw [hn'] at hn''; cases hn''; exact hv
+  obtain ⟨n', hn', a, b, c, d, e, g⟩ := f.keep y n hy hn
+  refine ⟨n', hn', a, b, c, d, e, ?_, g⟩
+  intro hv
+  obtain ⟨n'', hn'', hv'⟩ := f.verified ⟨n, hn, hv⟩
+  rw [hn'] at hn''; cases hn''; exact hv'
 
 theorem Frame.cur {p : Program} {s s' : St} (f : Frame p s s') : cur p s' = cur p s :=
   cur_congr f.inputs f.ext
 
+theorem Frame.node_of_unverified {p : Program} {s s' : St} (f : Frame p s s') {x : Key}
+    (h : ¬ Verified s' x) : s'.nodes x = s.nodes x := by
+  cases f.same_or_verified x with
+  | inl e => exact e
+  | inr v => exact absurd v h
+
 theorem Frame.just {p : Program} {s s' : St} (f : Frame p s s') {x : Key} (h : Just p s' x) :
     Just p s x := by
   obtain ⟨hnv, h⟩ := h
-  have e : s'.nodes x = s.nodes x := by
-    cases f.same_or_verified x with
-    | inl e => exact e
-    | inr v => exact absurd v hnv
+  have e : s'.nodes x = s.nodes x := f.node_of_unverified hnv
   refine ⟨fun hv => hnv (f.verified hv), ?_⟩
   rw [e, f.cur] at h
   exact h
+
+/-- a forced execution seen from an earlier state -/
+theorem Frame.forced {p : Program} {s s' s'' : St} (f : Frame p s s') (g : Frame p s' s'') {x : Key}
+    (h : Forced s' s'' x) : Forced s s'' x := by
+  obtain ⟨hnv, n, fk, o, hn, hk, hm, hc⟩ := h
+  have e : s'.nodes x = s.nodes x := f.node_of_unverified hnv
+  refine ⟨fun hv => hnv (f.verified hv), n, fk, o, by rw [← e]; exact hn, hk, hm, ?_⟩
+  rcases hc with hp | ⟨nf, nf', hnf, hnf', hd⟩
+  · -- pending in `s'`
+    cases hf' : s'.nodes fk with
+    | none => simp [hasPending, hf'] at hp
+    | some nf' =>
+      have hp' : nf'.pendingBP = true := by simpa [hasPending, hf'] using hp
+      obtain ⟨nf, hnf, hc⟩ := f.pend fk nf' hf' hp'
+      rcases hc with hc | hc
+      · exact Or.inl (by simp [hasPending, hnf, hc])
+      · -- changed between `s` and `s'`: the node is then verified in `s'` and keeps its data
+        cases f.same_or_verified fk with
+        | inl e' =>
+          rw [hf', hnf] at e'; cases e'
+          rcases hc with hc | hc <;> exact absurd rfl hc
+        | inr v =>
+          obtain ⟨nv, hnv', hvv⟩ := v
+          rw [hf'] at hnv'; cases hnv'
+          obtain ⟨nf'', hnf'', a, b⟩ := g.vkeep fk nf' hf' hvv
+          refine Or.inr ⟨nf, nf'', hnf, hnf'', ?_⟩
+          rw [a, b]; exact hc
+  · cases f.same_or_verified fk with
+    | inl e' => exact Or.inr ⟨nf, nf', by rw [← e']; exact hnf, hnf', hd⟩
+    | inr v =>
+      obtain ⟨nv, hnv', hvv⟩ := v
+      rw [hnf] at hnv'; cases hnv'
+      obtain ⟨nf'', hnf'', a, b⟩ := g.vkeep fk nf hnf hvv
+      rw [hnf'] at hnf''; cases hnf''
+      rcases hd with hd | hd
+      · exact absurd a hd
+      · exact absurd b hd
 
 theorem Frame.trans {p : Program} {s s' s'' : St} (f : Frame p s s') (g : Frame p s' s'') :
     Frame p s s'' where
@@ -68,9 +111,46 @@ theorem Frame.trans {p : Program} {s s' s'' : St} (f : Frame p s s') (g : Frame 
   world := by rw [g.world, f.world]
   keep := by
     intro x n hs hn
-    obtain ⟨n', hn', a, b, c, d, e⟩ := f.keep x n hs hn
-    obtain ⟨n'', hn'', a', b', c', d', e'⟩ := g.keep x n' (f.solid hs) hn'
-    exact ⟨n'', hn'', by rw [a', a], by rw [b', b], by rw [c', c], by rw [d', d], by rw [e', e]⟩
+    obtain ⟨n', hn', a, b, c, d, e, h⟩ := f.keep x n hs hn
+    obtain ⟨n'', hn'', a', b', c', d', e', h'⟩ := g.keep x n' (f.solid hs) hn'
+    exact ⟨n'', hn'', by rw [a', a], by rw [b', b], by rw [c', c], by rw [d', d], by rw [e', e],
+      fun hp => h (h' hp)⟩
+  vkeep := by
+    intro x n hn hv
+    obtain ⟨n', hn', a, b⟩ := f.vkeep x n hn hv
+    obtain ⟨n1, hn1, hv1⟩ := f.verified ⟨n, hn, hv⟩
+    rw [hn'] at hn1; cases hn1
+    obtain ⟨n'', hn'', a', b'⟩ := g.vkeep x n' hn' hv1
+    exact ⟨n'', hn'', by rw [a', a], by rw [b', b]⟩
+  pend := by
+    intro x n'' hn'' hp
+    obtain ⟨n', hn', hc⟩ := g.pend x n'' hn'' hp
+    rcases hc with hc | hc
+    · obtain ⟨n, hn, hc'⟩ := f.pend x n' hn' hc
+      refine ⟨n, hn, ?_⟩
+      rcases hc' with hc' | hc'
+      · exact Or.inl hc'
+      · -- changed between `s` and `s'`: verified in `s'`, data kept until `s''`
+        cases f.same_or_verified x with
+        | inl e =>
+          rw [hn', hn] at e; cases e
+          rcases hc' with h | h <;> exact absurd rfl h
+        | inr v =>
+          obtain ⟨nv, hnv, hvv⟩ := v
+          rw [hn'] at hnv; cases hnv
+          obtain ⟨n2, hn2, a, b⟩ := g.vkeep x n' hn' hvv
+          rw [hn''] at hn2; cases hn2
+          rw [a, b]; exact Or.inr hc'
+    · cases f.same_or_verified x with
+      | inl e => exact ⟨n', by rw [← e]; exact hn', Or.inr hc⟩
+      | inr v =>
+        obtain ⟨nv, hnv, hvv⟩ := v
+        rw [hn'] at hnv; cases hnv
+        obtain ⟨n2, hn2, a, b⟩ := g.vkeep x n' hn' hvv
+        rw [hn''] at hn2; cases hn2
+        rcases hc with h | h
+        · exact absurd a h
+        · exact absurd b h
   same_or_verified := by
     intro x
     cases g.same_or_verified x with
@@ -87,32 +167,61 @@ theorem Frame.trans {p : Program} {s s' s'' : St} (f : Frame p s s') (g : Frame 
       refine ⟨nd1, nd2, ?_⟩
       intro a ha b hb hab
       subst hab
-      exact (j2 a hb).1.1 (j1 a ha).2
+      have hv := (j1 a ha).2
+      rcases (j2 a hb).1 with h | h
+      · exact h.1 hv
+      · exact h.1 hv
     · intro x hx
       rw [List.mem_append] at hx
       cases hx with
-      | inl hx => exact ⟨(j1 x hx).1, g.verified (j1 x hx).2⟩
-      | inr hx => exact ⟨f.just (j2 x hx).1, (j2 x hx).2⟩
+      | inl hx =>
+        refine ⟨?_, g.verified (j1 x hx).2⟩
+        rcases (j1 x hx).1 with h | h
+        · exact Or.inl h
+        · -- the callee's change is still visible in `s''`
+          right
+          obtain ⟨hnv, n, fk, o, hn, hk, hm, hc⟩ := h
+          refine ⟨hnv, n, fk, o, hn, hk, hm, ?_⟩
+          rcases hc with hp | ⟨nf, nf', hnf, hnf', hd⟩
+          · exact Or.inl hp
+          · cases f.same_or_verified fk with
+            | inl e =>
+              rw [hnf', hnf] at e; cases e
+              rcases hd with h | h <;> exact absurd rfl h
+            | inr v =>
+              obtain ⟨nv, hnv', hvv⟩ := v
+              rw [hnf'] at hnv'; cases hnv'
+              obtain ⟨n2, hn2, a, b⟩ := g.vkeep fk nf' hnf' hvv
+              exact Or.inr ⟨nf, n2, hnf, hn2, by rw [a, b]; exact hd⟩
+      | inr hx =>
+        refine ⟨?_, (j2 x hx).2⟩
+        rcases (j2 x hx).1 with h | h
+        · exact Or.inl (f.just h)
+        · exact Or.inr (f.forced g h)
     · intro x hx hx''
       rw [List.mem_append]
       cases hx' : s'.nodes x with
       | none => exact Or.inr (b2 x hx' hx'')
       | some n' => exact Or.inl (b1 x hx (by rw [hx']; simp))
 
-theorem Touches.refl (b : Nat) (s : St) : Touches b s s := fun _ _ => rfl
+theorem Touches.refl (b : Nat) (s : St) : Touches b s s := ⟨fun _ _ => rfl, fun _ n h hp => ⟨n, h, hp⟩⟩
 
 theorem Touches.trans {b : Nat} {s s' s'' : St} (f : Touches b s s') (g : Touches b s' s'') :
-    Touches b s s'' := fun x hx => by rw [g x hx, f x hx]
+    Touches b s s'' :=
+  ⟨fun x hx => by rw [g.1 x hx, f.1 x hx], fun x n h hp => by
+    obtain ⟨n', h', hp'⟩ := f.2 x n h hp
+    exact g.2 x n' h' hp'⟩
 
 theorem Touches.mono {b b' : Nat} {s s' : St} (f : Touches b s s') (h : b ≤ b') : Touches b' s s' :=
-  fun x hx => f x (Nat.le_trans h hx)
+  ⟨fun x hx => f.1 x (Nat.le_trans h hx), f.2⟩
 
-/-- a state change that keeps every node except the stamp / pending flag of nodes it verifies -/
+/-- a state change that keeps every node except the stamp of nodes it verifies and pending flags it
+    clears -/
 theorem Frame.of_nodes {p : Program} {s s' : St} (he : s'.epoch = s.epoch) (hw : s'.world = s.world)
     (hl : s'.log = s.log)
     (hn : ∀ x, s'.nodes x = s.nodes x ∨ ∃ n n', s.nodes x = some n ∧ s'.nodes x = some n' ∧
       n'.value = n.value ∧ n'.deps = n.deps ∧ n'.tfc = n.tfc ∧ n'.seen = n.seen ∧ n'.kind = n.kind ∧
-      n'.lastVerified = s'.epoch) : Frame p s s' := by
+      n'.lastVerified = s'.epoch ∧ (n'.pendingBP = true → n.pendingBP = true)) : Frame p s s' := by
   have hin : inputsOf s' = inputsOf s := by
     funext x
     simp only [inputsOf]
@@ -125,14 +234,24 @@ theorem Frame.of_nodes {p : Program} {s s' : St} (he : s'.epoch = s.epoch) (hw :
     rcases hn x with e | ⟨n, n', h, h', hv, _, _, _, hk, _⟩
     · rw [e]
     · rw [h, h']; simp only [hk, hv]
-  refine ⟨he, hin, by simp only [extOf, hpin, hw], hw, ?_, ?_, ?_⟩
+  refine ⟨he, hin, by simp only [extOf, hpin, hw], hw, ?_, ?_, ?_, ?_, ?_⟩
   · intro x n _ hx
-    rcases hn x with e | ⟨n0, n', h, h', a, b, c, d, e, _⟩
-    · exact ⟨n, by rw [e]; exact hx, rfl, rfl, rfl, rfl, rfl⟩
+    rcases hn x with e | ⟨n0, n', h, h', a, b, c, d, e, _, g⟩
+    · exact ⟨n, by rw [e]; exact hx, rfl, rfl, rfl, rfl, rfl, id⟩
     · rw [hx] at h; cases h
-      exact ⟨n', h', a, b, c, d, e⟩
+      exact ⟨n', h', a, b, c, d, e, g⟩
+  · intro x n hx _
+    rcases hn x with e | ⟨n0, n', h, h', a, _, c, _⟩
+    · exact ⟨n, by rw [e]; exact hx, rfl, rfl⟩
+    · rw [hx] at h; cases h
+      exact ⟨n', h', a, c⟩
+  · intro x n' hx' hp
+    rcases hn x with e | ⟨n0, n1, h, h', _, _, _, _, _, _, g⟩
+    · exact ⟨n', by rw [← e]; exact hx', Or.inl hp⟩
+    · rw [hx'] at h'; cases h'
+      exact ⟨n0, h, Or.inl (g hp)⟩
   · intro x
-    rcases hn x with e | ⟨n0, n', h, h', _, _, _, _, _, hv⟩
+    rcases hn x with e | ⟨n0, n', h, h', _, _, _, _, _, hv, _⟩
     · exact Or.inl e
     · exact Or.inr ⟨n', h', hv⟩
   · apply Frame.log_nil hl
@@ -162,7 +281,9 @@ theorem Inv.clean_trusted {p : Program} {s : St} (inv : Inv p s) {x : Key} {n : 
   cases hk : ny.kind with
   | input => exact Solid.leaf hny (hleaf (Or.inl hk)).1 (fun h => by rw [hk] at h; cases h)
   | external => exact Solid.leaf hny (hleaf (Or.inr hk)).1 (fun h => by rw [hk] at h; cases h)
-  | projection => exact absurd hk (inv.noProj y ny hny)
+  | projection =>
+    rw [hk] at hall
+    exact inv.proj_solid hny hk (fun f hf => hall f (by simpa [contrib] using hf))
   | firewall =>
     rw [hk] at hall
     obtain ⟨nf, hnf, hver, _⟩ := settledFw_iff.1 (hall y (by simp [contrib]))
@@ -170,15 +291,16 @@ theorem Inv.clean_trusted {p : Program} {s : St} (inv : Inv p s) {x : Key} {n : 
     exact inv.solid y ny hny hver
   | normal =>
     rw [hk] at hall
-    exact (hnorm.2 hk).solid_of_settled inv ny hny (by rw [hk]; decide) (fun f hf => hall f (by simpa [contrib] using hf))
+    exact (hnorm.2 hk).solid_of_settled inv ny hny hk (fun f hf => hall f (by simpa [contrib] using hf))
 
 -- ------------------------------------------------------------------ elementary updates
 
-/-- replacing the node of `k` by one with the same recorded data (stamp and pending flag may
-    differ) keeps `Solid` and `NGood` of every key -/
+/-- replacing the node of `k` by one with the same recorded data (the stamp may move to the current
+    epoch, the pending flag may be cleared) keeps `Solid` of every key -/
 theorem Solid.setSame {s : St} {k : Key} {n n' : Node} (hk : s.nodes k = some n)
     (hv : n'.value = n.value) (hd : n'.deps = n.deps) (ht : n'.tfc = n.tfc) (hs : n'.seen = n.seen)
-    (hki : n'.kind = n.kind) (hver : n.kind = .firewall → n.lastVerified = s.epoch → n'.lastVerified = s.epoch)
+    (hki : n'.kind = n.kind) (hver : n.lastVerified = s.epoch → n'.lastVerified = s.epoch)
+    (hpm : n'.pendingBP = true → n.pendingBP = true)
     {x : Key} (h : Solid s x) : Solid (setNode s k n') x := by
   apply h.transfer
   intro y ny hy hny
@@ -186,8 +308,8 @@ theorem Solid.setSame {s : St} {k : Key} {n n' : Node} (hk : s.nodes k = some n)
   by_cases e : y = k
   · subst e
     rw [hk] at hny; cases hny
-    exact ⟨n', if_pos rfl, hv, hd, ht, hs, hki, fun hf => hver hf (hy.fwVerified hk hf)⟩
-  · exact ⟨ny, by rw [if_neg e]; exact hny, rfl, rfl, rfl, rfl, rfl, fun hf => hy.fwVerified hny hf⟩
+    exact ⟨n', if_pos rfl, hv, hd, ht, hs, hki, hver, hpm⟩
+  · exact ⟨ny, by rw [if_neg e]; exact hny, rfl, rfl, rfl, rfl, rfl, id, id⟩
 
 theorem NGood.transfer {s s' : St} {x : Key} (h : NGood s x)
     (hn : ∀ y n, NGood s y → s.nodes y = some n →
@@ -229,16 +351,24 @@ theorem NGood.setSame {s : St} {k : Key} {n n' : Node} (hk : s.nodes k = some n)
     · subst e; rw [hk] at hnd; cases hnd; exact ⟨n', if_pos rfl, hv, hki, fun _ => ht⟩
     · exact ⟨nd, by rw [if_neg e]; exact hnd, rfl, rfl, fun _ => rfl⟩
 
-/-- the invariant does not depend on the dirty set except through `clean`: removing marks from
-    edges that satisfy the clean-edge clause keeps it.  Also used with an unchanged dirty set. -/
+/-- replacing the node of `k` by one with the same recorded data: the stamp stays or moves to the
+    current epoch (then the recorded callees are `Solid` with current observations); the pending flag
+    stays, or is cleared when no projection above `k` has an outdated observation of `k` -/
 theorem Inv.setSame {p : Program} {s : St} (inv : Inv p s) {k : Key} {n n' : Node}
     (hk : s.nodes k = some n) (hv : n'.value = n.value) (hd : n'.deps = n.deps) (ht : n'.tfc = n.tfc)
     (hs : n'.seen = n.seen) (hki : n'.kind = n.kind)
     (hst : n'.lastVerified = n.lastVerified ∨ (n'.lastVerified = s.epoch ∧
       (∀ d o, (d, o) ∈ n.deps →
         ∃ nd, s.nodes d = some nd ∧ nd.value = o ∧ (nd.kind ≠ .firewall → nd.tfc = n.seen d)) ∧
-      (∀ d o, (d, o) ∈ n.deps → Solid s d))) :
+      (∀ d o, (d, o) ∈ n.deps → Solid s d)))
+    (hpb : n'.pendingBP = n.pendingBP ∨ (n'.pendingBP = false ∧
+      ∀ z nz o, s.nodes z = some nz → nz.kind = .projection → (k, o) ∈ nz.deps → n.value = o)) :
     Inv p (setNode s k n') := by
+  have hpm : n'.pendingBP = true → n.pendingBP = true := by
+    intro h
+    rcases hpb with e | ⟨e, _⟩
+    · rw [← e]; exact h
+    · rw [e] at h; cases h
   have nodeAt : ∀ x nx, (setNode s k n').nodes x = some nx →
       ∃ nx0, s.nodes x = some nx0 ∧ nx.value = nx0.value ∧ nx.deps = nx0.deps ∧ nx.tfc = nx0.tfc ∧
         nx.seen = nx0.seen ∧ nx.kind = nx0.kind ∧ (x ≠ k → nx = nx0) ∧ (x = k → nx = n' ∧ nx0 = n) := by
@@ -257,8 +387,8 @@ theorem Inv.setSame {p : Program} {s : St} (inv : Inv p s) {k : Key} {n n' : Nod
     by_cases e : x = k
     · subst e; rw [hk] at hx; cases hx; exact ⟨n', if_pos rfl, hv, hki, ht⟩
     · exact ⟨nx0, by rw [if_neg e]; exact hx, rfl, rfl, rfl⟩
-  have hverk : n.kind = .firewall → n.lastVerified = s.epoch → n'.lastVerified = s.epoch := by
-    intro _ h
+  have hverk : n.lastVerified = s.epoch → n'.lastVerified = s.epoch := by
+    intro h
     rcases hst with h' | ⟨h', _⟩
     · rw [h', h]
     · exact h'
@@ -266,9 +396,24 @@ theorem Inv.setSame {p : Program} {s : St} (inv : Inv p s) {k : Key} {n n' : Nod
   · intro x nx hx
     obtain ⟨nx0, h0, _, b, c, _, e, _⟩ := nodeAt x nx hx
     rw [e, b, c]; exact inv.kind x nx0 h0
-  · intro x nx hx
-    obtain ⟨nx0, h0, _, _, _, _, e, _⟩ := nodeAt x nx hx
-    rw [e]; exact inv.noProj x nx0 h0
+  · intro x nx hx hkx d o nd hm hnd
+    obtain ⟨nx0, h0, _, b, _, _, e, _⟩ := nodeAt x nx hx
+    obtain ⟨nd0, hnd0, _, _, _, _, e', _⟩ := nodeAt d nd hnd
+    rw [b] at hm; rw [e] at hkx; rw [e']
+    exact inv.pjFw x nx0 h0 hkx d o nd0 hm hnd0
+  · intro x nx hx hkx d o nd hm hnd hne
+    obtain ⟨nx0, h0, _, b, _, _, e, _⟩ := nodeAt x nx hx
+    obtain ⟨nd0, hnd0, a', _, _, _, _, hne', he'⟩ := nodeAt d nd hnd
+    rw [b] at hm; rw [e] at hkx
+    rw [a'] at hne
+    have hp0 := inv.pjBroken x nx0 h0 hkx d o nd0 hm hnd0 hne
+    by_cases ed : d = k
+    · obtain ⟨e1, e2⟩ := he' ed
+      subst e1; subst e2
+      rcases hpb with e | ⟨_, hall⟩
+      · rw [e]; exact hp0
+      · exact absurd (hall x nx0 o h0 hkx (ed ▸ hm)) hne
+    · rw [hne' ed]; exact hp0
   · intro x nx hx d o hm
     obtain ⟨nx0, h0, _, b, _⟩ := nodeAt x nx hx
     rw [b] at hm
@@ -308,9 +453,9 @@ theorem Inv.setSame {p : Program} {s : St} (inv : Inv p s) {k : Key} {n n' : Nod
       subst e1; subst e2
       rcases hst with h | ⟨h, hval, hsub⟩
       · rw [e]
-        exact (inv.solid k nx0 hk (by rw [← h]; exact hvx)).setSame hk hv hd ht hs hki hverk
+        exact (inv.solid k nx0 hk (by rw [← h]; exact hvx)).setSame hk hv hd ht hs hki hverk hpm
       · rw [e]
-        refine Solid.mk k nx (by simp [setNode]) (fun _ => hvx) ?_ ?_
+        refine Solid.mk k nx (by simp [setNode]) (fun _ => hvx) (fun _ => Or.inl hvx) ?_ ?_
         · intro d o hm
           rw [hd] at hm
           obtain ⟨nd, hnd, hvd, hacc⟩ := hval d o hm
@@ -318,9 +463,9 @@ theorem Inv.setSame {p : Program} {s : St} (inv : Inv p s) {k : Key} {n n' : Nod
           exact ⟨nd, by simp only [setNode, if_neg hdk]; exact hnd, hvd, fun hk' => by rw [hs]; exact hacc hk'⟩
         · intro d o hm
           rw [hd] at hm
-          exact (hsub d o hm).setSame hk hv hd ht hs hki hverk
+          exact (hsub d o hm).setSame hk hv hd ht hs hki hverk hpm
     · rw [hne e] at hvx
-      exact (inv.solid x nx0 h0 hvx).setSame hk hv hd ht hs hki hverk
+      exact (inv.solid x nx0 h0 hvx).setSame hk hv hd ht hs hki hverk hpm
   · intro x nx hx y o hm hcl
     obtain ⟨nx0, h0, _, b, _, dd, _⟩ := nodeAt x nx hx
     rw [b] at hm
@@ -334,18 +479,27 @@ theorem Inv.setSame {p : Program} {s : St} (inv : Inv p s) {k : Key} {n n' : Nod
 
 theorem Frame.setSame {p : Program} {s : St} {k : Key} {n n' : Node} (hk : s.nodes k = some n)
     (hv : n'.value = n.value) (hd : n'.deps = n.deps) (ht : n'.tfc = n.tfc) (hs : n'.seen = n.seen)
-    (hki : n'.kind = n.kind) (hver : n'.lastVerified = s.epoch) : Frame p s (setNode s k n') := by
+    (hki : n'.kind = n.kind) (hver : n'.lastVerified = s.epoch)
+    (hpm : n'.pendingBP = true → n.pendingBP = true) : Frame p s (setNode s k n') := by
   apply Frame.of_nodes (s := s) (s' := setNode s k n') rfl rfl rfl
   intro x
   by_cases e : x = k
   · subst e
-    exact Or.inr ⟨n, n', hk, by simp [setNode], hv, hd, ht, hs, hki, hver⟩
+    exact Or.inr ⟨n, n', hk, by simp [setNode], hv, hd, ht, hs, hki, hver, hpm⟩
   · exact Or.inl (by simp [setNode, e])
 
-theorem Touches.setNode (s : St) (k : Key) (n : Node) : Touches (k + 1) s (setNode s k n) := by
-  intro x hx
-  simp only [Qbice.CoreFw.setNode]
-  rw [if_neg (by komega)]
+theorem Touches.setNode (s : St) (k : Key) (n : Node)
+    (hp : ∀ n0, s.nodes k = some n0 → n0.pendingBP = true → n.pendingBP = true) :
+    Touches (k + 1) s (setNode s k n) := by
+  refine ⟨?_, ?_⟩
+  · intro x hx
+    simp only [Qbice.CoreFw.setNode]
+    rw [if_neg (by komega)]
+  · intro x n0 h0 hp0
+    simp only [Qbice.CoreFw.setNode]
+    by_cases e : x = k
+    · subst e; exact ⟨n, if_pos rfl, hp n0 h0 hp0⟩
+    · exact ⟨n0, by rw [if_neg e]; exact h0, hp0⟩
 
 /-- changing the dirty set only: everything but `clean` is untouched -/
 theorem Inv.setDirty {p : Program} {s : St} (inv : Inv p s) (dirty' : Key → Key → Bool)
@@ -353,11 +507,11 @@ theorem Inv.setDirty {p : Program} {s : St} (inv : Inv p s) (dirty' : Key → Ke
       ∃ ny, s.nodes y = some ny ∧ ny.value = o ∧ (ny.kind ≠ .firewall → ny.tfc = n.seen y) ∧ (ny.kind = .normal → NGood s y)) :
     Inv p { s with dirty := dirty' } := by
   have sol : ∀ x, Solid s x → Solid { s with dirty := dirty' } x := fun x hx =>
-    hx.transfer (fun y n hy hn => ⟨n, hn, rfl, rfl, rfl, rfl, rfl, fun hf => hy.fwVerified hn hf⟩)
+    hx.transfer (fun y n hy hn => ⟨n, hn, rfl, rfl, rfl, rfl, rfl, id, id⟩)
   have ng : ∀ x, NGood s x → NGood { s with dirty := dirty' } x := fun x hx =>
     hx.transfer (fun y n _ hn => ⟨n, hn, rfl, rfl⟩) (fun y n d o nd _ _ _ hnd => ⟨nd, hnd, rfl, rfl, fun _ => rfl⟩)
-  refine ⟨inv.kind, inv.noProj, inv.down, inv.tfcDown, inv.nodup, inv.trace, inv.stamp, inv.seenSub,
-    fun k n hn hv => sol k (inv.solid k n hn hv), ?_⟩
+  refine ⟨inv.kind, inv.pjFw, inv.pjBroken, inv.down, inv.tfcDown, inv.nodup, inv.trace, inv.stamp,
+    inv.seenSub, fun k n hn hv => sol k (inv.solid k n hn hv), ?_⟩
   intro x n hx y o hm hcl
   have hcl : dirty' x y = false := hcl
   have hx : s.nodes x = some n := hx
